@@ -22,7 +22,7 @@ from vlib import sx
 from vlib.paths import CORPUS
 
 SECTIONS = ('inline-baseline', 'thumb-size', 'display-parts', 'output-options', 'nesting-growth', 'margin-boxes',
-            'table-spans')
+            'table-spans', 'row-ending')
 
 
 # ---------------------------------------------------------------------------------------------
@@ -549,6 +549,40 @@ def table_span_elements(thorough):
                    f'<table style="{style}">{inner}</table>')
 
 
+def row_ending_cases(elements, size=60):
+    """-> (ident, html, skip, spans, impl): for every row group of every table of `elements` (rendered `size` tables
+    at a time on one tall page): the rowspans `wrap_table` left on the cells, and - read off the laid-out boxes - the
+    cells whose bottom edge is the bottom edge of each row (`ok (row.cell ...) ...`), or the exception class."""
+    from weasyprint.formatting_structure import boxes
+    tall = '<style>@page{size:300px 100000px;margin:0}</style>'
+    for batch in batches(elements, size):
+        html = DOC_HEAD + tall + ''.join(h for _, h in batch)
+        try:
+            with docs.time_limit(30):
+                document = docs.render(html)
+            tables = [b for b in document.pages[0]._page_box.descendants() if isinstance(b, boxes.TableBox)]
+            error = None if len(tables) == len(batch) and len(document.pages) == 1 else 'err:Layout'
+        except Exception as exc:  # noqa: BLE001
+            tables, error = [], f'err:{type(exc).__name__}'
+        if error:      # element by element: the model still gets the spans of the real build
+            for ident, h in batch:
+                yield from row_ending_cases([(ident, h)], 1) if size > 1 else [(ident, DOC_HEAD + h, 0, None, error)]
+            continue
+        for (ident, h), table in zip(batch, tables):
+            for number, group in enumerate(table.children):
+                rows = list(group.children)
+                spans = [[cell.rowspan for cell in row.children] for row in rows]
+                ending = [[] for _ in rows]
+                for r, row in enumerate(rows):
+                    for c, cell in enumerate(row.children):
+                        bottom = cell.position_y + cell.border_height()
+                        hits = [j for j in range(r, len(rows))
+                                if abs(rows[j].position_y + rows[j].height - bottom) < 1e-6]
+                        ending[hits[0] if hits else r].append(f'{r}.{c}')
+                impl = 'ok ' + ' '.join('(' + ' '.join(cells) + ')' for cells in ending)
+                yield f'{ident}#g{number}', DOC_HEAD + h, 0, spans, impl
+
+
 # ---------------------------------------------------------------------------------------------
 
 def add_sections(prop, run):
@@ -620,6 +654,20 @@ def add_sections(prop, run):
         '1 or 3, in automatic, fixed and collapsed-border layout; rendered and written 60 tables at a time; model: '
         'returns; non-trivial = every case')
     add_batched(sec, list(table_span_elements(run.thorough)), 60)
+    if run.thorough:
+        sec = run.section(
+            'row-ending',
+            'thorough tier: for every row group of the table-spans documents, the rowspans wrap_table left on the real '
+            'cells go through Model/RowEnding (the ending_cells_by_row bookkeeping of group_layout, proved total on '
+            'everything wrap_table can leave: C02RowEnding.placed_group_ending_total) and the cells ending in each row '
+            'are compared with the laid-out boxes (a cell ends in the row whose bottom edge is its own); non-trivial = '
+            'a cell spans several rows')
+        for ident, html, skip, spans, impl in row_ending_cases(list(table_span_elements(True))):
+            if spans is None:
+                sec.add(sx.line('total'), impl, meta={'doc_id': ident, 'html': html})
+                continue
+            sec.add(sx.line('row-ending', skip, spans), impl, meta={'doc_id': ident, 'html': html, 'spans': spans},
+                    nontrivial=any(s > 1 for row in spans for s in row), tags=[ident.split('/')[0]])
 
 
 def classify(prop, d):
@@ -641,6 +689,8 @@ def judge(prop, d):
         w, h, r = d['meta']['thumb']
         return (f'write_pdf with the dpi option: RasterImage.get_x_object raised {d["impl"]} for a {w}x{h} image '
                 f'downsampled by {r}')
+    if d['section'] == 'row-ending' and not d['impl'].startswith('err:'):
+        return None      # another geometry, no exception: not a clause of C02 (C10 judges geometry)
     if d['impl'].startswith('err:') or d['impl'] == 'bad-output':
         opts = d['meta'].get('options')
         return (f'{d["meta"].get("doc_id", "")}: rendering failed with {d["impl"]}'
